@@ -1089,3 +1089,425 @@ MONITORS = {
     "C01": mon_C01, "C02": mon_C02, "C03": mon_C03, "C04": mon_C04, "C05": mon_C05, "C06": mon_C06,
     "C11": mon_C11, "C12": mon_C12, "C13": mon_C13, "C14": mon_C14, "C15": mon_C15, "C16": mon_C16, "C20": mon_C20,
 }
+
+
+# ---------------------------------------------------------------------------------------------
+# policy references (C07 - C10), written from the property texts; all step-wise: the expected next
+# lists are computed from the implementation's OWN previous state, so one divergence does not cascade
+# ---------------------------------------------------------------------------------------------
+def without(lst, k):
+    return [e for e in lst if e[0] != k]
+
+
+def valof(lst, k):
+    for kk, vv in lst:
+        if kk == k:
+            return vv
+    return None
+
+
+def slru_promote(P, Q, qcap, k, newv=None):
+    """entry of k leaves probationary for the protected head; a full protected segment demotes its LRU"""
+    old = valof(P, k)
+    ent = (k, old if newv is None else newv)
+    P1 = without(P, k)
+    if len(Q) >= qcap:
+        dem = Q[-1]
+        return [dem] + P1, [ent] + Q[:-1], old
+    return P1, [ent] + Q, old
+
+
+def slru_put(P, Q, pcap, qcap, k, v):
+    if valof(Q, k) is not None:
+        return P, [(k, v)] + without(Q, k), "Update(%d)" % valof(Q, k)
+    if valof(P, k) is not None:
+        P1, Q1, old = slru_promote(P, Q, qcap, k, v)
+        return P1, Q1, "Update(%d)" % old
+    if len(P) >= pcap:
+        return [(k, v)] + P[:-1], Q, "Evicted(%d:%d)" % P[-1]
+    return [(k, v)] + P, Q, "Put"
+
+
+def slru_get(P, Q, qcap, k, w=None):
+    if valof(Q, k) is not None:
+        old = valof(Q, k)
+        return P, [(k, old if w is None else w)] + without(Q, k), "some %d" % old
+    if valof(P, k) is not None:
+        P1, Q1, old = slru_promote(P, Q, qcap, k, w)
+        return P1, Q1, "some %d" % old
+    return P, Q, "none"
+
+
+def walk(case, comp_ok):
+    """yield (i, line, toks, prev_state, state) for op lines with a state on both sides"""
+    prev = prev_state(case, 0)
+    for i, (l, st) in enumerate(states_of(case)):
+        if l.out is None or l.panic:
+            return
+        toks = l.lhs.split()
+        if toks[0] in ("clone", "dropalt", "census"):
+            continue
+        if toks[0] == "swap":
+            prev = parse_state(case.comp, l.out)
+            continue
+        if st is None:
+            continue
+        if prev is not None:
+            yield i, l, toks, prev, st
+        prev = st
+
+
+def expect(fails, case, i, what, exp, got):
+    if exp != got:
+        fails.append(Fail(case, i, "%s: policy says %s, implementation has %s" % (what, exp, got)))
+
+
+def mon_C07(case):
+    fails = []
+    if case.comp != "slru":
+        return fails
+    pcap, qcap = int(case.params["pcap"]), int(case.params["qcap"])
+    for i, l, toks, prev, st in walk(case, None):
+        op = toks[0]
+        P, Q = prev["lists"]["prob"], prev["lists"]["prot"]
+        P2, Q2 = st["lists"]["prob"], st["lists"]["prot"]
+        res = l.pos[0]
+        if op == "put":
+            eP, eQ, eres = slru_put(P, Q, pcap, qcap, int(toks[1]), int(toks[2]))
+            expect(fails, case, i, "probationary", eP, P2)
+            expect(fails, case, i, "protected", eQ, Q2)
+            expect(fails, case, i, "result", eres, res)
+        elif op in ("get", "getmut"):
+            w = int(toks[2]) if op == "getmut" and int(toks[2]) != 0 else None
+            eP, eQ, eres = slru_get(P, Q, qcap, int(toks[1]), w)
+            expect(fails, case, i, "probationary", eP, P2)
+            expect(fails, case, i, "protected", eQ, Q2)
+            expect(fails, case, i, "result", eres, res)
+        elif op == "putprotected":
+            k, v = int(toks[1]), int(toks[2])
+            if not Q2 or Q2[0] != (k, v):
+                fails.append(Fail(case, i, "put_protected: key must be the most recent protected entry, protected is %s" % Q2))
+            if valof(P2, k) is not None:
+                fails.append(Fail(case, i, "put_protected: key is still in the probationary segment %s" % P2))
+            if [e for e in P2 if e[0] != k] != [e for e in P if e[0] != k]:
+                fails.append(Fail(case, i, "put_protected changed other probationary entries: %s -> %s" % (P, P2)))
+        elif op in ("peek", "contains", "len", "cap", "isempty", "problen", "protlen", "probcap", "protcap",
+                    "peeklruprob", "peekmruprob", "peeklruprot", "peekmruprot"):
+            expect(fails, case, i, "probationary", P, P2)
+            expect(fails, case, i, "protected", Q, Q2)
+            if op == "peeklruprob":
+                expect(fails, case, i, "result", "some %d:%d" % P[-1] if P else "none", res)
+            elif op == "peekmruprob":
+                expect(fails, case, i, "result", "some %d:%d" % P[0] if P else "none", res)
+            elif op == "peeklruprot":
+                expect(fails, case, i, "result", "some %d:%d" % Q[-1] if Q else "none", res)
+            elif op == "peekmruprot":
+                expect(fails, case, i, "result", "some %d:%d" % Q[0] if Q else "none", res)
+        elif op == "removelruprob":
+            expect(fails, case, i, "probationary", P[:-1], P2)
+            expect(fails, case, i, "result", "some %d:%d" % P[-1] if P else "none", res)
+        elif op == "removelruprot":
+            expect(fails, case, i, "protected", Q[:-1], Q2)
+            expect(fails, case, i, "result", "some %d:%d" % Q[-1] if Q else "none", res)
+    return fails
+
+
+def mon_C08(case):
+    fails = []
+    if case.comp != "twoq" or case.head.out != "ok":
+        return fails
+    size = int(case.params["size"])
+    rs = int(size * f64_of(case.params["rr"]) // 1)
+    gcap = int(size * f64_of(case.params["gr"]) // 1)
+    for i, l, toks, prev, st in walk(case, None):
+        op = toks[0]
+        R, F, G = prev["lists"]["recent"], prev["lists"]["frequent"], prev["lists"]["ghost"]
+        R2, F2, G2 = st["lists"]["recent"], st["lists"]["frequent"], st["lists"]["ghost"]
+        res = l.pos[0]
+        if st["extra"].get("rs") != rs or st["caps"].get("ghost") != gcap:
+            fails.append(Fail(case, i, "quota/ghost bound are %s/%s, floor(size*ratio) gives %d/%d" % (st["extra"].get("rs"), st["caps"].get("ghost"), rs, gcap)))
+            break
+        eR = eF = eG = eres = None
+        if op == "put":
+            k, v = int(toks[1]), int(toks[2])
+            if valof(F, k) is not None:
+                eR, eF, eG, eres = R, [(k, v)] + without(F, k), G, "Update(%d)" % valof(F, k)
+            elif valof(R, k) is not None:
+                eR, eF, eG, eres = without(R, k), [(k, v)] + F, G, "Update(%d)" % valof(R, k)
+            else:
+                full = len(R) + len(F) >= size
+                ghost_hit = valof(G, k) is not None
+                R1, F1, G1 = list(R), list(F), list(G)
+                dropped = None
+                if full:
+                    over = (len(R) > rs) if ghost_hit else (len(R) >= rs)
+                    if len(R) > 0 and (over or len(F) == 0):
+                        vic, R1 = R1[-1], R1[:-1]
+                    else:
+                        vic, F1 = F1[-1], F1[:-1]
+                    if len(G1) >= gcap:
+                        dropped, G1 = G1[-1], G1[:-1]
+                    G1 = [vic] + G1
+                if ghost_hit:
+                    old = valof(G, k)
+                    G1 = without(G1, k)
+                    F1 = [(k, v)] + F1
+                    if dropped is not None and dropped[0] != k:
+                        eres = "EvictedAndUpdate(%d:%d,%d)" % (dropped[0], dropped[1], old)
+                    else:
+                        eres = "Update(%d)" % old
+                else:
+                    R1 = [(k, v)] + R1
+                    eres = "Evicted(%d:%d)" % dropped if dropped is not None else "Put"
+                eR, eF, eG = R1, F1, G1
+        elif op in ("get", "getmut"):
+            k = int(toks[1])
+            w = int(toks[2]) if op == "getmut" and int(toks[2]) != 0 else None
+            if valof(F, k) is not None:
+                old = valof(F, k)
+                eR, eF, eG, eres = R, [(k, old if w is None else w)] + without(F, k), G, "some %d" % old
+            elif valof(R, k) is not None:
+                old = valof(R, k)
+                eR, eF, eG, eres = without(R, k), [(k, old if w is None else w)] + F, G, "some %d" % old
+            else:
+                eR, eF, eG, eres = R, F, G, "none"
+        elif op in ("peek", "contains", "len", "cap", "isempty", "recentlen", "frequentlen", "ghostlen"):
+            eR, eF, eG = R, F, G
+        if eR is not None:
+            expect(fails, case, i, "recent queue", eR, R2)
+            expect(fails, case, i, "frequent queue", eF, F2)
+            expect(fails, case, i, "ghost list", eG, G2)
+        if eres is not None:
+            expect(fails, case, i, "result", eres, res)
+    return fails
+
+
+def arc_replace(T1, T2, B1, B2, p, size, hit_b2):
+    T1, T2, B1, B2 = list(T1), list(T2), list(B1), list(B2)
+    if len(T1) > 0 and (len(T1) > p or (len(T1) == p and hit_b2) or len(T2) == 0):
+        vic, T1 = T1[-1], T1[:-1]
+        if len(B1) >= size:
+            B1 = B1[:-1]
+        B1 = [vic] + B1
+    elif T2:
+        vic, T2 = T2[-1], T2[:-1]
+        if len(B2) >= size:
+            B2 = B2[:-1]
+        B2 = [vic] + B2
+    return T1, T2, B1, B2
+
+
+def mon_C09(case):
+    fails = []
+    if case.comp != "arc":
+        return fails
+    size = int(case.params["size"])
+    for i, l, toks, prev, st in walk(case, None):
+        op = toks[0]
+        L, L2 = prev["lists"], st["lists"]
+        T1, T2, B1, B2, p = L["recent"], L["frequent"], L["recentevict"], L["frequentevict"], prev["extra"]["p"]
+        p2 = st["extra"]["p"]
+        res = l.pos[0]
+        if p2 > size:
+            fails.append(Fail(case, i, "adaptation target p=%d exceeds the size %d" % (p2, size)))
+        exp = None
+        check_ghosts = True
+        if op == "put":
+            k, v = int(toks[1]), int(toks[2])
+            full = len(T1) + len(T2) >= size
+            if valof(T1, k) is not None:
+                exp = (without(T1, k), [(k, v)] + T2, B1, B2, p, "Update(%d)" % valof(T1, k))
+            elif valof(T2, k) is not None:
+                exp = (T1, [(k, v)] + without(T2, k), B1, B2, p, "Update(%d)" % valof(T2, k))
+            elif valof(B1, k) is not None:
+                delta = max(1, len(B2) // len(B1))
+                np_ = min(size, p + delta)
+                a = (T1, T2, without(B1, k), B2)
+                if full:
+                    a = arc_replace(a[0], a[1], a[2], a[3], np_, size, False)
+                exp = (a[0], [(k, v)] + a[1], a[2], a[3], np_, "Update(%d)" % valof(B1, k))
+            elif valof(B2, k) is not None:
+                delta = max(1, len(B1) // len(B2))
+                np_ = p - min(p, delta)
+                a = (T1, T2, B1, without(B2, k))
+                if full:
+                    a = arc_replace(a[0], a[1], a[2], a[3], np_, size, True)
+                exp = (a[0], [(k, v)] + a[1], a[2], a[3], np_, "Update(%d)" % valof(B2, k))
+            else:
+                a = (T1, T2, B1, B2)
+                if full:
+                    a = arc_replace(T1, T2, B1, B2, p, size, False)
+                exp = ([(k, v)] + a[0], a[1], None, None, p, "Put")
+                check_ghosts = False      # ghost trimming on a miss is not part of the policy statement
+        elif op in ("get", "getmut"):
+            k = int(toks[1])
+            w = int(toks[2]) if op == "getmut" and int(toks[2]) != 0 else None
+            if valof(T1, k) is not None:
+                old = valof(T1, k)
+                exp = (without(T1, k), [(k, old if w is None else w)] + T2, B1, B2, p, "some %d" % old)
+            elif valof(T2, k) is not None:
+                old = valof(T2, k)
+                exp = (T1, [(k, old if w is None else w)] + without(T2, k), B1, B2, p, "some %d" % old)
+            else:
+                exp = (T1, T2, B1, B2, p, "none")
+        elif op in ("peek", "contains", "len", "cap", "isempty", "partition", "recentlen", "frequentlen", "recentevictlen", "frequentevictlen"):
+            exp = (T1, T2, B1, B2, p, None)
+        if exp is not None:
+            expect(fails, case, i, "recent list", exp[0], L2["recent"])
+            expect(fails, case, i, "frequent list", exp[1], L2["frequent"])
+            if check_ghosts:
+                expect(fails, case, i, "recent ghost list", exp[2], L2["recentevict"])
+                expect(fails, case, i, "frequent ghost list", exp[3], L2["frequentevict"])
+            expect(fails, case, i, "adaptation target p", exp[4], p2)
+            if exp[5] is not None:
+                expect(fails, case, i, "result", exp[5], res)
+    return fails
+
+
+class PyTiny:
+    """the estimator as the property describes it, run on the implementation's own dump"""
+
+    def __init__(self, env, dump, samples):
+        m = re.match(r"^w=(\d+) rows=([0-9a-f/]*) door=([0-9a-f.]*)$", dump)
+        self.w = int(m.group(1))
+        self.rows = [bytearray.fromhex(r) for r in m.group(2).split("/")]
+        self.door = [int(x, 16) for x in m.group(3).split(".")] if m.group(3) else []
+        self.samples = samples
+        e = dict(t.split("=", 1) for t in env.split()[1:])
+        self.core = e["scheme"] == "core"
+        self.seeds = [int(x, 16) for x in e.get("seeds", "").split(",")] if not self.core else []
+        self.mask = int(e["mask"], 16)
+        self.bmask, self.blocs, self.bshift = int(e["bmask"]), int(e["blocs"]), int(e["bshift"])
+
+    def pos(self, i, h):
+        if self.core:
+            return ((h + i * (h >> 32)) & MASK64) & self.mask
+        return (h ^ self.seeds[i]) & self.mask
+
+    def ctr(self, i, h):
+        p = self.pos(i, h)
+        b = self.rows[i][p // 2]
+        return (b >> ((p & 1) * 4)) & 0xF
+
+    def bits(self, h):
+        hh = h >> self.bshift
+        ll = ((h << self.bshift) & MASK64) >> self.bshift
+        return [(hh + j * ll) & self.bmask for j in range(self.blocs)]
+
+    def has(self, h):
+        return all((self.door[b >> 6] >> (b % 64)) & 1 for b in self.bits(h))
+
+    def est(self, h):
+        return min(self.ctr(i, h) for i in range(4)) + (1 if self.has(h) else 0)
+
+    def try_reset(self):
+        self.w += 1
+        if self.w >= self.samples:
+            self.w = 0
+            self.door = [0] * len(self.door)
+            for r in self.rows:
+                for j in range(len(r)):
+                    r[j] = (r[j] >> 1) & 0x77
+
+    def inc(self, h):
+        if not self.has(h):
+            for b in self.bits(h):
+                self.door[b >> 6] |= 1 << (b % 64)
+        else:
+            for i in range(4):
+                p = self.pos(i, h)
+                if self.ctr(i, h) < 15:
+                    self.rows[i][p // 2] += 1 << ((p & 1) * 4)
+        self.try_reset()
+
+    def dump(self):
+        return "w=%d rows=%s door=%s" % (self.w, "/".join(r.hex() for r in self.rows), ".".join("%016x" % x for x in self.door))
+
+
+MASK64 = (1 << 64) - 1
+
+
+def mon_C10(case):
+    fails = []
+    if case.comp != "wtinylfu" or case.head.out != "ok":
+        return fails
+    P_ = case.params
+    wcap, pcap, qcap, samples = int(P_["wcap"]), int(P_["pcap"]), int(P_["qcap"]), int(P_["samples"])
+    env = next((e.lhs for e in case.env if e.lhs.startswith("env ")), None)
+    kh = {int(e.lhs.split()[1]): int(e.lhs.split()[2], 16) for e in case.env if e.lhs.startswith("kh ")}
+    if env is None:
+        return fails
+    for i, l, toks, prev, st in walk(case, None):
+        if prev["extra"].get("est") is None:
+            # the very first operation: the estimator is all zero
+            words = int(dict(t.split("=", 1) for t in env.split()[1:])["bwords"])
+            m = re.match(r"^w=\d+ rows=([0-9a-f/]*) ", st["extra"]["est"])
+            rows = "/".join("0" * len(r) for r in m.group(1).split("/"))
+            prev = dict(prev, extra={"est": "w=0 rows=%s door=%s" % (rows, ".".join(["0" * 16] * words))})
+        op = toks[0]
+        W, P, Q = prev["lists"]["window"], prev["lists"]["prob"], prev["lists"]["prot"]
+        W2, P2, Q2 = st["lists"]["window"], st["lists"]["prob"], st["lists"]["prot"]
+        res = l.pos[0]
+        est = PyTiny(env, prev["extra"]["est"], samples)
+        exp = None
+        eest = prev["extra"]["est"]
+        if op == "put":
+            k, v = int(toks[1]), int(toks[2])
+            if valof(W, k) is not None:
+                old = valof(W, k)
+                W1 = without(W, k)
+                Q1 = list(Q)
+                if len(Q) >= qcap:
+                    W1 = [Q[-1]] + W1
+                    Q1 = Q[:-1]
+                exp = (W1, P, [(k, v)] + Q1, "Update(%d)" % old)
+            elif valof(P, k) is not None or valof(Q, k) is not None:
+                eP, eQ, eres = slru_put(P, Q, pcap, qcap, k, v)
+                exp = (W, eP, eQ, eres)
+            elif len(W) < wcap:
+                exp = ([(k, v)] + W, P, Q, "Put")
+            else:
+                cand = W[-1]
+                W1 = [(k, v)] + W[:-1]
+                if len(P) + len(Q) < pcap + qcap:
+                    eP, eQ, eres = slru_put(P, Q, pcap, qcap, cand[0], cand[1])
+                    exp = (W1, eP, eQ, eres)
+                else:
+                    vic = P[-1] if P else None
+                    if vic is not None and est.est(kh.get(cand[0], 0)) < est.est(kh.get(vic[0], 0)):
+                        exp = (W1, P, Q, "Evicted(%d:%d)" % cand)
+                    else:
+                        eP, eQ, eres = slru_put(P, Q, pcap, qcap, cand[0], cand[1])
+                        exp = (W1, eP, eQ, eres)
+        elif op in ("get", "getmut"):
+            k = int(toks[1])
+            w = int(toks[2]) if op == "getmut" and int(toks[2]) != 0 else None
+            est.try_reset()
+            est.inc(kh.get(k, 0))
+            eest = est.dump()
+            if valof(W, k) is not None:
+                old = valof(W, k)
+                exp = ([(k, old if w is None else w)] + without(W, k), P, Q, "some %d" % old)
+            else:
+                eP, eQ, eres = slru_get(P, Q, qcap, k, w)
+                exp = (W, eP, eQ, eres)
+        elif op == "purge":
+            est.w = 0
+            est.door = [0] * len(est.door)
+            est.rows = [bytearray(len(r)) for r in est.rows]
+            eest = est.dump()
+            exp = ([], [], [], None)
+        elif op in ("peek", "contains", "len", "cap", "isempty", "windowlen", "windowcap", "mainlen", "maincap", "debug"):
+            exp = (W, P, Q, None)
+        if exp is not None:
+            expect(fails, case, i, "window", exp[0], W2)
+            expect(fails, case, i, "probationary", exp[1], P2)
+            expect(fails, case, i, "protected", exp[2], Q2)
+            if exp[3] is not None:
+                expect(fails, case, i, "result", exp[3], res)
+            if st["extra"]["est"] != eest:
+                fails.append(Fail(case, i, "estimator after %s: expected %s, implementation has %s" % (op, eest, st["extra"]["est"])))
+    return fails
+
+
+MONITORS.update({"C07": mon_C07, "C08": mon_C08, "C09": mon_C09, "C10": mon_C10})
